@@ -80,7 +80,7 @@ func c12CodeGrammar(maxW int) *enum.Grammar {
 	return enum.New([][]enum.Prod{ct, el}, maxW)
 }
 
-var c12Operands = []V{model.Int(1), form("t!", model.Int(1)), sym("y"), form("list", model.Int(1)), model.Nil, sym("list")}
+var c12Operands = []V{model.Int(1), form("t!", model.Int(1)), sym("y"), form("list", model.Int(1)), model.Nil, sym("list"), sym("mac")}
 
 // c12Args enumerates operand tuples of length 1..2 (quick) / 1..3 (thorough).
 func c12Args(maxLen int) [][]V {
@@ -306,7 +306,8 @@ func init() {
 			a := argsOf()[i%na]
 			body := form("quasiquote", cgOf().Unrank(0, i/na))
 			params := model.Vec(sym("p"), sym("&"), sym("r"))
-			defs = form("defmacro", sym("mac"), form("fn", params, body))
+			// the expander has an effect of its own: it must run once per expansion
+			defs = form("defmacro", sym("mac"), form("fn", params, form("t!", model.Int(7)), body))
 			call = model.List(append([]V{sym("mac")}, a...)...)
 			fdefs = form("def", sym("fun"), form("fn", params, body))
 			fcall = model.List(append([]V{sym("fun")}, a...)...)
@@ -314,7 +315,7 @@ func init() {
 		}
 		mac := &vf.Family{
 			Name:   "macros-from-templates",
-			Bounds: "(defmacro mac (fn [p & r] `CT)) for every code template CT of weight <=4 (quick) / <=5 (thorough) over 11 forms and 7 element leaves, applied to every operand tuple of length 1-2 (quick) / 1-3 (thorough) over 6 operands; same body as an ordinary function",
+			Bounds: "(defmacro mac (fn [p & r] `CT)) for every code template CT of weight <=4 (quick) / <=5 (thorough) over 11 forms and 7 element leaves, applied to every operand tuple of length 1-2 (quick) / 1-3 (thorough) over 7 operands (incl. the macro's own name); the expander logs an effect; same body as an ordinary function",
 			Setup:  setup,
 			N:      func(t string) int64 { tier = t; return cgOf().Count(0, cW()) * int64(len(argsOf())) },
 			Describe: func(i int64) string { d, c, _, _ := macProg(i); return form("do", d, c).Lisp() },
